@@ -105,6 +105,29 @@ mod proofs {
     #[kani::proof]
     #[kani::unwind(8)]
     fn five_group_by_columns() { run(5); }
+    fn any_tag() -> EncodingType {
+        let k: u8 = kani::any();
+        kani::assume(k < 30);
+        use EncodingType::*;
+        match k {
+            0 => Str, 1 => I64, 2 => U8, 3 => U16, 4 => U32, 5 => U64, 6 => F64, 7 => Val, 8 => USize, 9 => Bitvec,
+            10 => NullableStr, 11 => NullableI64, 12 => NullableU8, 13 => NullableU16, 14 => NullableU32, 15 => NullableU64, 16 => NullableF64,
+            17 => OptStr, 18 => Null, 19 => ScalarI64, 20 => ScalarF64, 21 => ScalarStr, 22 => ScalarString, 23 => ConstVal,
+            24 => ByteSlices(kani::any()), 25 => ValRows, 26 => Premerge, _ => MergeOp,
+        }
+    }
+    // two partial results may carry the same column with different types (a column that is a string in one partition and an
+    // integer in another; C01: "degrades to the documented common type"): before the merge both sides are brought to one type,
+    // whatever the two types are - never a panic
+    #[kani::proof]
+    fn unify_types_gives_one_type() {
+        let l = TypedBufferRef::new(BufferRef { i: 1, name: "l", t: PhantomData }, any_tag());
+        let r = TypedBufferRef::new(BufferRef { i: 2, name: "r", t: PhantomData }, any_tag());
+        let mut qp = QueryPlanner { log: [None; LOG], len: 0, next: 100 };
+        let (l2, r2) = unify_types(&mut qp, l, r);
+        assert!(l2.tag == r2.tag, "[one-type] after unification both sides of the merge have the same type");
+        assert!((l2.tag == l.tag && l2.buffer.i == l.buffer.i) || qp.len >= 1, "[cast-recorded] a side whose type changes goes through a cast node");
+    }
     #[kani::proof]
     fn vx_canary() {
         let x: u8 = kani::any();
